@@ -27,7 +27,6 @@ import (
 func init() { commands["pool"] = poolCmd }
 
 type poolRun struct {
-	wN, uN  int
 	rnd     *rand.Rand
 	sink    *trace.Sink
 	srv     *env.Server
@@ -57,16 +56,10 @@ func (r *poolRun) wal(addr string) string {
 	if a, ok := r.wAlias[addr]; ok {
 		return a
 	}
-	r.wN++
-	a := fmt.Sprintf("w%d", r.wN)
+	a := fmt.Sprintf("w%d", len(r.wAlias)+1)
 	r.wAlias[addr] = a
 	return a
 }
-
-// fresh aliases for a connection just dialled: the OS may hand out a source port again that an earlier connection
-// of this history used
-func (r *poolRun) newWal(addr string) string { delete(r.wAlias, addr); return r.wal(addr) }
-func (r *poolRun) newUal(addr string) string { delete(r.uAlias, addr); return r.ual(addr) }
 
 func (r *poolRun) ual(addr string) string {
 	if addr == "" {
@@ -75,8 +68,7 @@ func (r *poolRun) ual(addr string) string {
 	if a, ok := r.uAlias[addr]; ok {
 		return a
 	}
-	r.uN++
-	a := fmt.Sprintf("u%d", r.uN)
+	a := fmt.Sprintf("u%d", len(r.uAlias)+1)
 	r.uAlias[addr] = a
 	return a
 }
@@ -147,7 +139,7 @@ func (r *poolRun) deliver(runID string) string {
 		return ""
 	}
 	r.mu.Lock()
-	al := r.newWal(c.LocalAddr().String())
+	al := r.wal(c.LocalAddr().String())
 	r.works[al] = c
 	r.mu.Unlock()
 	r.sink.Emit("drv", "drv.work.offer", "w", al)
@@ -226,7 +218,7 @@ func (r *poolRun) userConn(proxy string, wg *sync.WaitGroup) {
 	}
 	t0 := time.Now()
 	r.mu.Lock()
-	ua := r.newUal(c.LocalAddr().String())
+	ua := r.ual(c.LocalAddr().String())
 	r.mu.Unlock()
 	lport := c.LocalAddr().(*net.TCPAddr).Port
 	payload := []byte(fmt.Sprintf("hello-%s-%d", ua, lport))
